@@ -241,7 +241,7 @@ pub fn exec(case: &[i64]) -> Outcome {
 
 pub fn base_issuer() -> IssuerDoc {
   let u = |f: i64| U { d: 1, r: 0, f };
-  IssuerDoc { id: 1, vm: vec![(U { d: 2, r: 0, f: 1 }, 21), (u(0), 10), (u(1), 11), (u(2), -5)], rels: [vec![Ent::Refer(u(0)), Ent::Embed(u(3), 13)], vec![Ent::Refer(u(1))], vec![Ent::Embed(U { d: 2, r: 0, f: 4 }, 14)], vec![], vec![Ent::Refer(u(6))]],
+  IssuerDoc { id: 1, vm: vec![(U { d: 2, r: 0, f: 1 }, 21), (u(0), 10), (u(1), 11), (u(2), -5)], rels: [vec![Ent::Refer(u(0)), Ent::Embed(u(3), 13)], vec![Ent::Refer(u(1))], vec![Ent::Embed(U { d: 2, r: 0, f: 4 }, 14)], vec![Ent::Embed(u(11), 17)], vec![Ent::Refer(u(6)), Ent::Embed(u(12), 18)]],
     svc: vec![(u(7), 70), (u(8), 80), (u(9), 91)], bms: vec![(70, true, vec![5, 9, 70000]), (80, false, vec![]), (91, false, vec![])] }
 }
 pub fn other_issuer() -> IssuerDoc { IssuerDoc { id: 2, vm: vec![(U { d: 2, r: 0, f: 0 }, 20)], svc: vec![(U { d: 2, r: 0, f: 7 }, 71)], bms: vec![(71, true, vec![1])], ..Default::default() } }
@@ -255,9 +255,10 @@ pub fn mutations() -> Vec<(&'static str, Vec<fn(&mut Case)>)> {
   vec![
     ("nonce", vec![|c| { c.nonce = Some(1); c.o_nonce = Some(1); }, |c| { c.nonce = Some(1); c.o_nonce = Some(2); }, |c| c.nonce = Some(1), |c| c.o_nonce = Some(1)]),
     ("kid", vec![|c| c.kid = (0, U { d: 0, r: 0, f: -1 }), |c| c.kid = (1, U { d: 0, r: 0, f: -1 }), |c| c.kid.1.f = 5, |c| c.kid.1 = U { d: 2, r: 0, f: 0 }, |c| { c.kid.1.f = 1; c.sigkey = 11; }, |c| c.kid.1.f = 2, |c| { c.kid.1.f = 3; c.sigkey = 13; },
-      |c| { c.kid.1 = U { d: 2, r: 0, f: 4 }; c.sigkey = 14; }, |c| c.kid.1.f = 6, |c| c.kid.1.r = 1, |c| c.kid.1.f = -1]),
+      |c| { c.kid.1 = U { d: 2, r: 0, f: 4 }; c.sigkey = 14; }, |c| c.kid.1.f = 6, |c| c.kid.1.r = 1, |c| c.kid.1.f = -1,
+      |c| { c.kid.1.f = 11; c.sigkey = 17; }, |c| { c.kid.1.f = 12; c.sigkey = 18; }]),
     ("method-id", vec![|c| c.method_id = Some(U { d: 1, r: 0, f: 0 }), |c| { c.method_id = Some(U { d: 1, r: 0, f: 1 }); }, |c| { c.method_id = Some(U { d: 1, r: 0, f: 1 }); c.sigkey = 11; }, |c| { c.method_id = Some(U { d: 1, r: 0, f: 0 }); c.kid = (0, U { d: 0, r: 0, f: -1 }); }, |c| c.method_id = Some(U { d: 2, r: 0, f: 0 })]),
-    ("scope", vec![|c| c.scope = 0, |c| c.scope = 1, |c| c.scope = 2, |c| c.scope = 3, |c| c.scope = 5]),
+    ("scope", vec![|c| c.scope = 0, |c| c.scope = 1, |c| c.scope = 2, |c| c.scope = 3, |c| c.scope = 4, |c| c.scope = 5]),
     ("signature", vec![|c| c.sigkey = 11, |c| c.sigkey = 99]),
     ("claims", vec![|c| c.claims_ok = false, |c| { c.claims_ok = false; c.bad = 1; }, |c| { c.claims_ok = false; c.bad = 1; c.vc.expires = Some(100); }, |c| { c.claims_ok = false; c.bad = 2; }, |c| { c.claims_ok = false; c.bad = 3; }, |c| { c.claims_ok = false; c.bad = 4; }, |c| { c.claims_ok = false; c.bad = 5; }, |c| { c.claims_ok = false; c.bad = 6; }, |c| { c.claims_ok = false; c.bad = 7; }]),
     ("issuer", vec![|c| c.vc.issuer = Some(2), |c| c.vc.issuer = None, |c| c.vc.issuer = Some(3)]),
